@@ -397,7 +397,7 @@ func genG09(repo string, w *Out) error {
 	if err := g09Need("data", db, "maxPayloadLength := atomic.LoadUint32(&r.maxFrameSize)", "w := r.outputBuffer(id)", "for {",
 		"nextPayloadLength := uint32(len(data))", "if nextPayloadLength > maxPayloadLength { nextPayloadLength = maxPayloadLength }",
 		"copy(nextPayload, data)", "data = data[nextPayloadLength:]",
-		"f := &queuedDataFrame{id, streamEnded && len(data) == 0, nextPayload}", "w.enqueue(f)",
+		"f := &queuedDataFrame{streamID: id, endStream: streamEnded && len(data) == 0, data: nextPayload, relay: r}", "w.enqueue(f)",
 		"w.emitEligibleFrames(r.output, &r.connectionWindowSize)", "if len(data) == 0 { break }"); err != nil {
 		return err
 	}
@@ -447,7 +447,27 @@ func genG09(repo string, w *Out) error {
 		"f.chunks, f.err = f.relay.headerChunks(f.headers, pushPromiseMetadataLength)"); err != nil {
 		return err
 	}
-	for _, t := range []string{"queuedDataFrame", "queuedPriorityFrame", "queuedRSTStreamFrame"} {
+	// DATA is split again at release if the peer lowered its max frame size meanwhile
+	_, dpfd, err := g09Body(qf, "queuedDataFrame.prepare")
+	if err != nil {
+		return err
+	}
+	if err := g09Exact("queuedDataFrame.prepare", qf, dpfd.Body,
+		"f.maxFrameSize = atomic.LoadUint32(&f.relay.maxFrameSize)"); err != nil {
+		return err
+	}
+	_, dsfd, err := g09Body(qf, "queuedDataFrame.send")
+	if err != nil {
+		return err
+	}
+	if err := g09Exact("queuedDataFrame.send", qf, dsfd.Body,
+		"data := f.data",
+		"for f.maxFrameSize > 0 && uint32(len(data)) > f.maxFrameSize { if err := dest.WriteData(f.streamID, false, data[:f.maxFrameSize]); err != nil { return err } data = data[f.maxFrameSize:] }",
+		"return dest.WriteData(f.streamID, f.endStream, data)"); err != nil {
+		return err
+	}
+	w.DefBool("data_resplit_at_release", true)
+	for _, t := range []string{"queuedPriorityFrame", "queuedRSTStreamFrame"} {
 		if _, err := qf.Func(t + ".prepare"); err == nil {
 			return fmt.Errorf("%s has a prepare method the model does not know", t)
 		}
@@ -482,7 +502,6 @@ func genG09(repo string, w *Out) error {
 		return err
 	}
 	for _, t := range [][2]string{
-		{"queuedDataFrame.send", "dest.WriteData(f.streamID, f.endStream, f.data)"},
 		{"queuedPriorityFrame.send", "dest.WritePriority(f.streamID, f.priority)"},
 		{"queuedRSTStreamFrame.send", "dest.WriteRSTStream(f.streamID, f.errCode)"},
 	} {
